@@ -137,6 +137,14 @@ class InArray(object):
         self.shape = shape
 
     def sym_load(self, interp, k, node):
+        if isinstance(k, slice) and (k.step is None or k.step == 1):
+            lo = k.start if k.start is not None else 0
+            hi = k.stop if k.stop is not None else (self.shape[0] if self.shape else None)
+            lo_p = lo if isinstance(lo, P) else P.const(lo)
+            hi_p = hi if isinstance(hi, P) else P.const(hi)
+            sub = InArray('%s[%s:%s]' % (self.name, normal(lo_p).text(), normal(hi_p).text()), shape=(hi_p - lo_p,))
+            sub.base, sub.lo, sub.hi = self, lo_p, hi_p
+            return sub
         ks = k if isinstance(k, tuple) else (k,)
         parts = []
         deps = set()
@@ -251,6 +259,7 @@ def rename_var(p, old, new):
 def make_sum(var, lo, hi, body, conds):
     """SUM_{lo <= var < hi, conds} body  as a linear combination of canonical sum atoms"""
     body = normal(body)
+    conds = [c for c in conds if var in _cond_deps(c)]
     if conds:
         canon = var
     else:
